@@ -207,8 +207,8 @@ def comp_term(defs):
 def classify(defs, name, obs, exp):
     """which known class explains obs != expansion (None: no known class does).  The classes are kept as narrow as their
     descriptions: `appended` needs a COMPONENTS OF entry that is not the last entry of its list and explains a permutation only;
-    `chain-order` needs a referenced type that itself uses COMPONENTS OF (depth >= 2) and a reference that sorts before its referrer.  A chain of depth one with trailing
-    COMPONENTS OF is proved right (C09_pass_depth_one), so a difference there is never a known finding.
+    a chain with trailing COMPONENTS OF entries is proved right at any depth and in any name order (C09_pass_acyclic_chain), so a
+    difference there is never a known finding.
     (The class K_SET -- COMPONENTS OF a SET type copied nothing -- was repaired in /repo: SET chains are judged like SEQUENCE chains.)"""
     d = {x[0]: x for x in defs}
     reach, todo = [], [name]
@@ -219,14 +219,11 @@ def classify(defs, name, obs, exp):
         reach.append(n)
         todo += [x[1] for x in d[n][2] if x[0] == 'of']
     non_trailing = any(x[0] == 'of' and any(y[0] == 'own' for y in d[n][2][i + 1:]) for n in reach for i, x in enumerate(d[n][2]))
-    deep = any(x[0] == 'of' and x[1] in d and any(y[0] == 'of' for y in d[x[1]][2]) for x in d[name][2])
-    # the pass runs in descending name order: a referenced type that sorts after its referrer is finished before it is copied
-    ordered = all(n < x[1] for n in reach for x in d[n][2] if x[0] == 'of')
     if sorted(obs) == sorted(exp):
         return K_APPENDED if non_trailing else None
-    # (C09_pass_ordered_chain: an ordered chain with trailing entries is right at any depth; ordered but not trailing can
-    #  only permute, so a different multiset of fields needs a reference that sorts before its referrer)
-    return K_CHAIN if deep and not ordered else None
+    # (the class K_CHAIN -- a chain whose middle type is linked after the including one -- was repaired in /repo: the fields of a
+    #  chain are a permutation of its expansion at any depth and in any name order, C09_pass_acyclic_chain for trailing entries)
+    return None
 
 
 def expand_py(defs, name, seen=()):
@@ -247,7 +244,7 @@ def run(ck):
                            'removed) compared between the two compilations; names drawn so that referenced names sort before and after the '
                            'referencing ones, definitions in shuffled order.  COMPONENTS OF chains of 1..3 levels at any position, SEQUENCE and '
                            'SET: the field names of every type compared with the linker model and with the meaning of the notation (inside Coq)')
-    ck.assumptions += ['the full COMPONENTS OF statement is refuted (two known findings: position of the copied components, chains whose referenced type sorts before its referrer); proved: the single linking step, and the whole pass for chains of any depth, SEQUENCE or SET, whose COMPONENTS OF entries come last and whose referenced types sort after their referrers (C09_pass_ordered_chain; depth one needs no order: C09_pass_depth_one)']
+    ck.assumptions += ['the full COMPONENTS OF statement is refuted (one known finding: the position of the copied components); proved: the single linking step, and the whole pass for every chain that is not circular and whose COMPONENTS OF entries come last -- any depth, any name order, SEQUENCE or SET (C09_pass_acyclic_chain; C09_pass_depth_one)']
     ck.prove('Props/C09.v', ['RasnV.Props.C09'], extra=['Corr/C09.vo'])
     pairs = pair_cases(ck)
     cases = []
